@@ -279,8 +279,11 @@ class MinFlowDecompCycles(walkmodel.AbstractWalkModelDiGraph):
         if self._source_flow is None:
             self._source_flow = 0
             for v in self.G.nodes():
-                out_flow = sum(data.get(self.flow_attr, 0) for _, _, data in self.G.out_edges(v, data=True))
-                in_flow  = sum(data.get(self.flow_attr, 0) for _, _, data in self.G.in_edges(v, data=True))
+                # (as Python numbers: sums and differences of fixed-width numpy integers wrap around, np.uint8 130 + 131 = 5)
+                out_flow = sum(data[self.flow_attr].item() if hasattr(data[self.flow_attr], "item") else data[self.flow_attr]
+                               for _, _, data in self.G.out_edges(v, data=True) if self.flow_attr in data)
+                in_flow  = sum(data[self.flow_attr].item() if hasattr(data[self.flow_attr], "item") else data[self.flow_attr]
+                               for _, _, data in self.G.in_edges(v, data=True) if self.flow_attr in data)
                 if out_flow > in_flow:
                     self._source_flow = self._source_flow + (out_flow - in_flow)
             utils.logger.debug(f"{__name__}: source_flow = {self._source_flow}")
